@@ -86,7 +86,19 @@ pub fn oracle(c: &Case, acc: &mut Acc) -> CaseResult {
         kr = snow::Keypair { private: b.to_vec(), public: crate::refcrypto::dh_pub(c.suite.dh, &b).ok_or("shaped key")? };
     }
     let prologue = expand(c.seed, 7, c.prologue_len);
-    let psks: Vec<(u8, [u8; 32])> = c.psks.iter().map(|n| (*n, crate::engine::expand32(c.seed, 100 + *n as u64))).collect();
+    // one session in 16 uses an all-zero first PSK, one in 16 an all-ones one
+    let psks: Vec<(u8, [u8; 32])> = c
+        .psks
+        .iter()
+        .enumerate()
+        .map(|(k, n)| {
+            (*n, match (k, c.seed % 16) {
+                (0, 9) => [0u8; 32],
+                (0, 10) => [0xffu8; 32],
+                _ => crate::engine::expand32(c.seed, 100 + *n as u64),
+            })
+        })
+        .collect();
     let (rng_i, rng_r) = match shaped_keys {
         Some((a, b)) => {
             let (ri, rr) = (SharedRng::seeded(1, false), SharedRng::seeded(2, false));
